@@ -370,7 +370,17 @@ type MIx<Ix> = petgraph::matrix_graph::NodeIndex<Ix>;
 pub fn matrix_segment<Ty: EdgeType + 'static, Null: Nullable<Wrapped = i32> + 'static, Ix: petgraph::graph::IndexType>(rng: &mut Rng, log: &mut Log, len: usize, target_nodes: usize, nullname: &str, ixname: &str) {
     let directed = Ty::is_directed();
     log.ev(json!({"op":"reset","kind":"matrix","directed":directed,"null":nullname,"ix":ixname}));
-    let cap = *rng.pick(&[0usize, 1, 3, 4, 5]);
+    // one segment in three starts from an exactly-sized, completely filled matrix (every cell of the old layout
+    // occupied, non-power-of-two widths included) so that the first growth has to move every row correctly
+    let dense = rng.chance(1, 3);
+    let cap = if dense { *rng.pick(&[2usize, 3, 5, 6, 7]) } else { *rng.pick(&[0usize, 1, 3, 4, 5]) };
+    let mut forced: std::collections::VecDeque<Option<(usize, usize)>> = Default::default();
+    if dense {
+        for _ in 0..cap { forced.push_back(None); }
+        for a in 0..cap { for b in 0..cap { if directed || a <= b { forced.push_back(Some((a, b))); } } }
+        forced.push_back(None); // the node that triggers the growth
+    }
+    let len = len + forced.len();
     let mut g: Mx<Ty, Null, Ix> = MatrixGraph::with_capacity(cap);
     let mut serial = 0;
     let mut next = || { serial += 1; serial };
@@ -382,7 +392,8 @@ pub fn matrix_segment<Ty: EdgeType + 'static, Null: Nullable<Wrapped = i32> + 's
         // C04 quantifies over calls between EXISTING nodes only: arguments are always live ids
         let pick = |rng: &mut Rng| -> usize { live[rng.below(live.len())] };
         let _ = nb;
-        let r = if live.is_empty() { 0 } else { rng.below(1000) };
+        let fop = forced.pop_front();
+        let r = match fop { Some(None) => 0, Some(Some(_)) => 300, None => if live.is_empty() { 0 } else { rng.below(1000) } };
         let grow = live.len() < target_nodes;
         let (e, ret) = if r < (if grow { 200 } else { 40 }) {
             if live.len() >= ixmax { continue; }
@@ -395,6 +406,7 @@ pub fn matrix_segment<Ty: EdgeType + 'static, Null: Nullable<Wrapped = i32> + 's
             let a2 = a;
             let b = if b == usize::MAX { a2 } else { b };
             let mut which = *rng.pick(&["add_edge", "update_edge", "update_edge", "try_update_edge"]);
+            let (a, b) = if let Some(Some(ab)) = fop { ab } else { (a, b) };
             // add_edge on an existing edge is a documented panic (the state afterwards is not specified)
             if which == "add_edge" && g.has_edge(ni(a), ni(b)) { which = "update_edge"; }
             let e = json!({"op":which,"a":a,"b":b,"w":w});
@@ -540,6 +552,71 @@ pub fn gen_c04(seed: u64, segments: usize, len: usize, log: &mut Log) {
             3 => matrix_segment::<Undirected, NotZero<i32>, u32>(&mut rng, log, l, target, "NotZero", "u32"),
             4 => matrix_segment::<Directed, Option<i32>, usize>(&mut rng, log, l, target, "Option", "usize"),
             _ => matrix_segment::<Undirected, Option<i32>, u8>(&mut rng, log, l, target, "Option", "u8"),
+        }
+    }
+}
+
+// ------------------------------------------------------------------------------------------------
+// MatrixGrow.tla -> implementation: each completed behaviour of the growth model is one call of the real
+// (private) growth routine, reached through the cfg(petgraph_verif) hook; the Vec is compared cell by cell.
+#[derive(Clone, PartialEq, Debug)]
+struct Cell(i64, i64);
+impl Default for Cell {
+    fn default() -> Self {
+        Cell(-1, -1)
+    }
+}
+
+fn grow_one<Ty: petgraph::EdgeType>(old: usize, req: usize, exact: bool) -> Result<(usize, Vec<Cell>, Vec<Value>), ()> {
+    use petgraph::matrix_graph::{verif_extend_linearized_matrix as grow, verif_linearized_matrix_position as pos};
+    guard(|| {
+        // a fully populated old matrix laid out by the real position function with the old width
+        let mut v: Vec<Cell> = vec![];
+        for r in 0..old {
+            for k in 0..old {
+                if Ty::is_directed() || r >= k {
+                    let p = pos::<Ty>(r, k, old);
+                    if v.len() <= p {
+                        v.resize_with(p + 1, Cell::default);
+                    }
+                    v[p] = Cell(r as i64, k as i64);
+                }
+            }
+        }
+        let new = grow::<Ty, Cell>(&mut v, old, req, exact);
+        // what the real position function finds with the new width
+        let mut found = vec![];
+        for r in 0..new {
+            for k in 0..new {
+                let p = pos::<Ty>(r, k, new);
+                let c = v.get(p).cloned().unwrap_or(Cell(-2, -2));
+                found.push(json!([r, k, c.0, c.1]));
+            }
+        }
+        (new, v, found)
+    })
+}
+
+pub fn mx_grow(calls: &[Value], log: &mut Log) {
+    for (i, rec) in calls.iter().enumerate() {
+        let c = &rec["call"];
+        let (old, req) = (c["old"].as_u64().unwrap() as usize, c["req"].as_u64().unwrap() as usize);
+        let (exact, dir) = (c["exact"].as_bool().unwrap(), c["directed"].as_bool().unwrap());
+        let r = if dir { grow_one::<petgraph::Directed>(old, req, exact) } else { grow_one::<petgraph::Undirected>(old, req, exact) };
+        match r {
+            Ok((new, v, found)) => {
+                let arr: Vec<Value> = v.iter().map(|c| json!([c.0, c.1])).collect();
+                let same = json!(arr) == rec["arr"] && json!(new) == rec["new"];
+                // through the position function: (r,k) holds its identity iff r,k < old
+                let mut pos_ok = true;
+                for f in &found {
+                    let (r, k, a, b) = (f[0].as_i64().unwrap(), f[1].as_i64().unwrap(), f[2].as_i64().unwrap(), f[3].as_i64().unwrap());
+                    let want = if (r as usize) < old && (k as usize) < old { if dir || r >= k { (r, k) } else { (k, r) } } else { (-1, -1) };
+                    pos_ok &= (a, b) == want;
+                }
+                log.ev(json!({"i": i, "call": c, "ok": same && pos_ok, "same": same, "pos_ok": pos_ok, "new": new, "arr": if same { json!([]) } else { json!(arr) }}));
+            }
+            Err(()) => log.ev(json!({"i": i, "call": c, "ok": false, "panic": true})),
         }
     }
 }
